@@ -350,7 +350,10 @@ Qed.
 (* every execution starts with an empty retry ledger: budgets are never shared between executions *)
 Theorem retry_budget_is_per_execution now ext key b l k c script pos :
   get_rstate (fresh_world now ext key b l k c script) pos = {| rs_failed := 0; rs_exceeded := false |}.
-Proof. reflexivity. Qed.
+Proof.
+  unfold fresh_world. destruct ext as [[t e]|]; [|reflexivity]. destruct (t <=? now); [|reflexivity].
+  rewrite (get_rstate_ext _ _ pos (sp_retry _ _ (fire_ext_sps (fresh_world0 now (Some (t, e)) key b l k c script) e))). reflexivity.
+Qed.
 
 (* ------------------------------------------------------------------ *)
 (* 5. C07 — timeout (timed level)                                       *)
